@@ -139,8 +139,9 @@ CHECKS = {
           'proved to write g[d,3(jm+i)+d] = f_i g_j, which with the C11 series contract makes f.c the virtual work; sparse.solve and analysis.static are executed over '
           'abstract arrays for all sizes (K restricted to its non-null columns, f restricted likewise, solution scattered into zeros); StiffPanelBay.calc_fext is '
           'executed symbolically for 0..2 skin forces and for bays with 1..3 two-dimensional stiffeners (one force per component): the load vector is the concatenation '
-          'skin | blade flanges | T base, T flange in the order the matrices use, each part [fx,fy,fz].g(x_f,y_f) of its own component (1 fixed defect).'),
-    design_ref='DESIGN.md section 4 (C07)',
+          'skin | blade flanges | T base, T flange in the order the matrices use, each part [fx,fy,fz].g(x_f,y_f) of its own component (1 fixed defect); Panel.static is executed end to end (real constructor, real Analysis.static): '
+          'the system solved is the result of the panel\'s calc_k0() against the result of its calc_fext().'),
+    design_ref='DESIGN.md section 4 (C07), 10.29',
     note=('spsolve through an assumed contract (remove_null_cols proved from its source on abstract matrices, the real solve additionally by the bounded run-time stand-in); numbers of panels and '
           'forces bounded (1..2 panels, 0..2 forces of each kind); linearity follows from the structure of the result, not separately proved; bays: 1..3 stiffeners in 4 orders of kinds'),
     technique='contracts + symbolic execution (object arrays, abstract arrays); exact normal form; bounded stand-in for sparse.py'),
